@@ -65,6 +65,21 @@ def bases_json(bases: list[dict]) -> dict:
 
 
 # --------------------------------------------------------------------------- mutant (spec items) -> raw model dictionary
+WRONG = "zz_undefined"
+_ALIAS: dict = {}          # realised wrong label -> the specification's Wrong, for the case being evaluated (one process evaluates one case at a time)
+
+
+def _adversarial(v, orig_v, base):
+    """The specification's undefined label stands for ANY undefined label.  For a parameter reference it is realised as the group path of the
+    parameter it replaces ('kinetic' for 'kinetic.k21'): undefined all the same, but a prefix of labels that do exist."""
+    if v == WRONG and isinstance(orig_v, str) and orig_v in base["parameters"] and "." in orig_v:
+        pref = orig_v.split(".")[0]
+        if pref not in base["parameters"] and all(pref not in reg for reg in base["model"].values() if isinstance(reg, dict)):
+            _ALIAS[pref] = WRONG
+            return pref
+    return v
+
+
 def build_raw(case: dict, base: dict, base_case: dict) -> dict:
     """Overlay the reference slots of the mutant on the raw base model.  Which attributes are slots is read from the
     specification's own normalisation of the base model (base_case), never decided here."""
@@ -81,12 +96,15 @@ def build_raw(case: dict, base: dict, base_case: dict) -> dict:
         if isinstance(item.get("labels"), list) and it["nlabels"] < len(item["labels"]):
             item["labels"] = item["labels"][: it["nlabels"]]     # DropPlainLabel: the plain label list the specification shortened
         for s in it["slots"]:
+            o = src.get(s["name"]) if isinstance(src, dict) else None
             if s["shape"] == "scalar":
-                item[s["name"]] = s["vals"][0]
+                item[s["name"]] = _adversarial(s["vals"][0], o, base)
             elif s["shape"] == "list":
-                item[s["name"]] = list(s["vals"])
+                ol = list(o) if isinstance(o, (list, tuple)) and len(o) == len(s["vals"]) else [None] * len(s["vals"])
+                item[s["name"]] = [_adversarial(v, ov, base) for v, ov in zip(s["vals"], ol)]
             else:
-                item[s["name"]] = dict(zip(s["keys"], s["vals"]))
+                od = o if isinstance(o, dict) else {}
+                item[s["name"]] = {k: _adversarial(v, od.get(k), base) for k, v in zip(s["keys"], s["vals"])}
         if kind in LIST_KINDS:
             raw[kind][int(orig) - 1] = item
         else:
@@ -172,6 +190,9 @@ def project(messages, may: set) -> tuple[set, list]:
     expected issues whose label it quotes (wording is not compared); if it quotes none it is returned as unparsed."""
     got, unparsed = set(), []
     for msg in messages:
+        if "arameter" in msg:          # only the label quoted by a missing-PARAMETER message ('irf' is also the name of an item kind)
+            for real, spec_label in _ALIAS.items():
+                msg = msg.replace(f"'{real}'", f"'{spec_label}'")
         for rx, f in _SHAPES:
             m = rx.match(msg.strip())
             if m:
@@ -272,6 +293,7 @@ def eval_case(case: dict, base: dict, base_case: dict, slot_target: dict, evalua
     def skip(reason):
         out["skips"][reason] = out["skips"].get(reason, 0) + 1
 
+    _ALIAS.clear()
     raw = build_raw(case, base, base_case)
     try:
         model = model_class(base)(**tuple_keys(raw))
@@ -380,7 +402,7 @@ def eval_case(case: dict, base: dict, base_case: dict, slot_target: dict, evalua
         with warnings.catch_warnings():
             warnings.simplefilter("ignore")
             gen = model.generate_parameters()
-            glabels = {p.label for p in gen.all()}
+            glabels = {_ALIAS.get(p.label, p.label) for p in gen.all()}
         out["evaluations"] += 1
         miss = set(case["gen"]) - glabels
         if miss:
